@@ -379,8 +379,14 @@ impl Target {
     pub fn wait_settled(&self, spec: &TSpec) -> bool {
         let deadline = Instant::now() + Duration::from_millis(2000);
         // the main thread must have reached its command loop (blocked in read)
+        // "blocked in syscall nr" = sleeping state AND /proc/<tid>/syscall names it (the syscall
+        // file alone also shows the number while a restarted call has not been re-entered yet)
+        let blocked_in = |tid: i32, nr: &str| -> bool {
+            self.thread_status(tid).map(|(st, _)| st == 'S').unwrap_or(false)
+                && std::fs::read_to_string(format!("/proc/{}/task/{}/syscall", self.pid, tid)).map(|s| s.starts_with(nr)).unwrap_or(false)
+        };
         loop {
-            if std::fs::read_to_string(format!("/proc/{}/task/{}/syscall", self.pid, self.pid)).map(|s| s.starts_with("0 ")).unwrap_or(false) {
+            if blocked_in(self.pid, "0 ") {
                 break;
             }
             if Instant::now() > deadline {
@@ -392,9 +398,9 @@ impl Target {
             let tid = self.tid(t.id);
             loop {
                 let ok = match t.kind {
-                    K_PARKED => std::fs::read_to_string(format!("/proc/{}/task/{}/syscall", self.pid, tid)).map(|s| s.starts_with("34 ")).unwrap_or(false),
+                    K_PARKED => blocked_in(tid, "34 "),
                     K_SPINNER => self.read_u64(t.aux).map(|v| v > t.regs[12]).unwrap_or(false),
-                    K_EXITER => std::fs::read_to_string(format!("/proc/{}/task/{}/syscall", self.pid, tid)).map(|s| s.starts_with("0 ")).unwrap_or(false),
+                    K_EXITER => blocked_in(tid, "0 "),
                     K_NULLSP => std::fs::read_to_string(format!("/proc/{}/task/{}/syscall", self.pid, tid)).map(|s| s.starts_with("running")).unwrap_or(false),
                     _ => true,
                 };
